@@ -37,7 +37,9 @@ impl BracketAtom {
             BracketAtom::Char(c) => return BracketAtom::fmt_regex_char(*c, regex),
             BracketAtom::CollatingSymbol(value) | BracketAtom::EquivalenceClass(value) => {
                 if !value.is_empty() {
-                    regex.write_str(value)
+                    return value
+                        .chars()
+                        .try_for_each(|c| BracketAtom::fmt_regex_char(c, regex));
                 } else {
                     return Err(Error::EmptyCollatingSymbol);
                 }
